@@ -198,7 +198,9 @@ class TDS(BaseRoutine):
         self.reset()
         self._load_pert()
 
-        # restore power flow solutions
+        # restore power flow solutions; the values left by a previous dynamic initialization
+        # are cleared because initial values declared with `v_str_add` are added in place
+        system.dae.clear_xy()
         system.dae.x[:len(system.PFlow.x_sol)] = system.PFlow.x_sol
         system.dae.y[:len(system.PFlow.y_sol)] = system.PFlow.y_sol
         system.dae.t -= system.dae.t   # set `dae.t` to zero
